@@ -13,7 +13,11 @@ R-C29.4  "spanned source lines": SourceMap.add_file (re-)reads the file on every
          stale cache); span_lines indexes with the span's own start/end lines.
 R-C29.5  context lines keep their numbers: between `span_lines(...)` and the numbering loop the window is only
          rewritten line by line and the context count is not changed (c29_lines.py, below).
-Not decided: column arithmetic of the highlight markers, indentation trimming, termination.
+R-C29.6  `render_snippet` interpreted with Span / Loc / SourceMap.span_lines / wrap (textwrap = the standard library's own) on 255
+         spans x context x style x label cases over a nine-line source with indentation up to 20: the numbered lines are the
+         right source lines minus one common trim, the markers start and end under the spanned columns, every label word is
+         shown whole and in order, nothing raises (c29_snippet.py).
+Not decided: termination in general; sources and spans outside the enumerated family.
 """
 
 from __future__ import annotations
@@ -68,7 +72,8 @@ def run(ctx: Ctx) -> None:
                   "lines are not wrapped only at whitespace")
 
     # ------------------------------------------------------------ R-C29.2
-    from . import c29_render, c29_wrap
+    from . import c29_render, c29_snippet, c29_wrap
+    c29_snippet.run(ctx)  # R-C29.6: snippet lines, marker columns, label words (render_snippet with everything it uses, interpreted)
     if not c29_wrap.run(ctx):
         # fallback (wrap could not be interpreted): shape of the destructuring, and callers never pass an empty text
         destr = [n for n in walk_no_nested(wrap.node) if isinstance(n, ast.Assign) and isinstance(n.targets[0], (ast.List, ast.Tuple))
